@@ -64,7 +64,12 @@ def main():
                     replay = json.load(open(path)).get("what") or json.load(open(path)).get("kind")
                 except Exception:
                     replay = None
-            results[sid] = {"property": prop, "tests": tests_tail, "demo_exit_patched": rc_demo, "check_exit": rc_chk,
+            try:
+                ev = json.load(open(os.path.join(scratch, "ev", prop + ".json")))
+                touched = [c["function"] for c in ev["coverage"]["modelled_functions"]["changed"]]
+            except Exception:
+                touched = None
+            results[sid] = {"property": prop, "modelled_functions_changed": touched, "tests": tests_tail, "demo_exit_patched": rc_demo, "check_exit": rc_chk,
                             "violation_line": vio[0] if vio else None, "what": replay,
                             "detected": rc_chk == 1 and bool(vio)}
         finally:
